@@ -62,6 +62,22 @@ def _alarm(signum, frame):
     raise Hang("case exceeded %.0fs" % CASE_TIMEOUT)
 
 
+# The per-case watchdog counts CPU time of the worker (ITIMER_PROF), so that the verdict "does not terminate"
+# does not depend on how loaded the machine is; a much longer wall-clock timer catches a case that blocks
+# without using the CPU.  Both timers re-fire every few seconds in case the library swallows the exception.
+WALL_FACTOR = 15
+
+
+def _arm():
+    signal.setitimer(signal.ITIMER_PROF, CASE_TIMEOUT, 2.0)
+    signal.setitimer(signal.ITIMER_REAL, CASE_TIMEOUT * WALL_FACTOR, 5.0)
+
+
+def _disarm():
+    signal.setitimer(signal.ITIMER_PROF, 0)
+    signal.setitimer(signal.ITIMER_REAL, 0)
+
+
 class Space(object):
     def __init__(self, name, cases, exhaustive=True, bounds=""):
         self.name = name
@@ -179,17 +195,18 @@ def _init_worker(modname):
     mod = importlib.import_module(modname)
     _EVAL = mod.eval_case
     signal.signal(signal.SIGALRM, _alarm)
+    signal.signal(signal.SIGPROF, _alarm)
     if hasattr(mod, "init_worker"):
         mod.init_worker()
 
 
 def _eval_one(case):
-    signal.setitimer(signal.ITIMER_REAL, CASE_TIMEOUT)
+    _arm()
     try:
         try:
             r = _EVAL(case)
         finally:
-            signal.setitimer(signal.ITIMER_REAL, 0)
+            _disarm()
     except Hang as e:
         r = CaseResult(outcome="hang")
         r.fail("terminates", kind="hang", observed=str(e))
